@@ -75,43 +75,53 @@ def prefixesOk (cs : List Commit) : List (Path × Ver) → List Op → Bool
   | s, [] => recover cs s != Rec.broken
   | s, o :: os => recover cs s != Rec.broken && prefixesOk cs (applyOp s o) os
 
-/-- one poll of the page's main task: the program moves until it blocks, finishes, or has
-just exhausted a block flagged as a yield point -/
-def mainPoll (yields : List Bool) (s : PSt) : Nat → PSt
+/-- per block: (number of leading log snapshots of `add_documents`, length of the first stage,
+number of stages) -/
+abbrev BlockShape := Nat × Nat × Nat
+
+/-- the program has just executed the last `schedule` call of `add_documents` -/
+def atYield (shapes : List BlockShape) (s : PSt) : Bool :=
+  match shapes[s.started - 1]? with
+  | some (pre, first, total) =>
+    s.started > 0 && pre > 0 && s.inStage && s.waiting.isNone && s.stages.length + 1 == total &&
+      s.cur.length + pre == first
+  | none => false
+
+/-- one poll of the page's main task: the program moves until it blocks, finishes, or yields
+after `add_documents` -/
+def mainPoll (shapes : List BlockShape) (yieldAfterAdd : Bool) (s : PSt) : Nat → PSt
   | 0 => s
   | n + 1 =>
     match progStep s with
     | none => s
     | some s' =>
-      if s'.cur.isEmpty && s'.waiting.isNone && !s.cur.isEmpty && yields.getD (s'.started - 1) false then s'
-      else mainPoll yields s' n
+      if yieldAfterAdd && atYield shapes s' && decide (s'.cur.length < s.cur.length) then s'
+      else mainPoll shapes yieldAfterAdd s' n
 
 /-- the specified browser with the FIFO microtask queue: runnable persistence tasks first
 (lowest id), then the main task, then the next event of the oldest transaction -/
-def fifoRun (yields : List Bool) (s : PSt) : Nat → PSt
+def fifoRun (shapes : List BlockShape) (y : Bool) (s : PSt) : Nat → PSt
   | 0 => s
   | n + 1 =>
     match runnableTasks s.q with
     | t :: _ =>
       match pstep s (.adv (.run t)) with
-      | some s' => fifoRun yields s' n
+      | some s' => fifoRun shapes y s' n
       | none => s
     | [] =>
       match progStep s with
-      | some _ => fifoRun yields (mainPoll yields s 10000) n
+      | some _ => fifoRun shapes y (mainPoll shapes y s 10000) n
       | none =>
         match s.q.txs with
         | x :: _ =>
           match pstep s (.adv (if x.succeeded then .complete x.id else .succ x.id)) with
-          | some s' => fifoRun yields s' n
+          | some s' => fifoRun shapes y s' n
           | none => s
         | [] => s
 
-/-- blocks of the FIFO program: `add_documents` (log snapshots, optional yield) and `commit` -/
-def fifoBlocks (cs : List Commit) (yieldAfterAdd : Bool) (repaired : Bool) : List (List Instr × Bool) :=
-  cs.flatMap (fun c =>
-    (if c.pre.isEmpty then [] else [(c.pre.map (Instr.sched walPath), yieldAfterAdd)]) ++
-    [((if repaired then blockRepaired else blockOf) { c with pre := [] }, false)])
+def shapeOf (rep : Bool) (c : Commit) : BlockShape :=
+  let b := if rep then blockRepaired c else blockOf c
+  (c.pre.length, (b.headD []).length, b.length)
 
 def handle (req : Json) : Except String Json := do
   let op ← getStr req "op"
@@ -139,14 +149,12 @@ def handle (req : Json) : Except String Json := do
   | "fifo" =>
     let cs ← (← getArr req "commits").toList.mapM parseCommit
     let rep := getBoolD req "repaired" false
-    let blocks := fifoBlocks cs (getBoolD req "yield_after_add" true) rep
-    let s0 : PSt := { q := { awaitComplete := rep }, rest := blocks.map (·.1) }
-    let s := fifoRun (blocks.map (·.2)) s0 (getNatD req "fuel" 100000)
+    let s := fifoRun (cs.map (shapeOf rep)) (getBoolD req "yield_after_add" true) (initP cs rep) (getNatD req "fuel" 100000)
     let dn := s.q.done.map (fun o => match o with
       | .put p v => Json.arr #[(p : Json), natsToJson v.data]
       | .del p => Json.arr #[(p : Json), Json.null])
-    return Json.mkObj [("done", Json.arr dn.toArray),
-      ("finished", Json.bool (s.cur.isEmpty && s.rest.isEmpty && s.waiting.isNone && s.q.txs.isEmpty))]
+    return Json.mkObj [("done", Json.arr dn.toArray), ("resolved", (s.resolvedBlocks : Json)),
+      ("finished", Json.bool (!s.inStage && s.rest.isEmpty && s.waiting.isNone && s.q.txs.isEmpty))]
   | _ => throw s!"C27: unknown op {op}"
 
 end SL.Drv.C27
